@@ -26,12 +26,79 @@ def mods(c):
     return [(f, c.self) for f in BD_FIELDS] + ['g:vstate', 'g:bd_res', 'g:bd_resv']
 
 
+CNT = 'BuildDirs._build_dir_counts'
+OCNT = SH[CNT].osort()
+
+
+def bd_inv(c, st):
+    """representation invariant of the reservation tables (what does not need cardinalities):
+    a registered count is positive; a directory recorded as created by this build is reserved;
+    a directory is not both 'created' and 'created, then given up after an error'"""
+    rd = getattr(c, st)
+    cnt, cm, err = rd(CNT, c.self), rd(CM, c.self), rd(ERR, c.self)
+    return [('counts-are-positive', ForAll([x], Implies(OCNT.is_some(cnt[x]),
+                                                        OCNT.val(cnt[x]) >= 1))),
+            ('created-dirs-are-reserved', ForAll([x], Implies(OCM.is_some(cm[x]),
+                                                              OCNT.is_some(cnt[x])))),
+            ('created-and-given-up-are-disjoint', ForAll([x], Not(And(err[x],
+                                                                      OCM.is_some(cm[x])))))]
+
+
+def bd_inv_pre(c):
+    # object invariant: established by __init__, preserved by the two methods that write these
+    # tables (both proved below); no caller can establish it locally
+    return [('assume-object-invariant.' + n, f) for n, f in bd_inv(c, 'old')]
+
+
+def bd_inv_post(c):
+    return [('invariant.' + n, f, ['C04', 'C10', 'C12']) for n, f in bd_inv(c, 'new')]
+
+
+y_ = z3.Const('bd!y', StrS)
+
+
+def dec(e):
+    """a count entry after giving one reservation back"""
+    return If(OCNT.val(e) > 1, OCNT.some(OCNT.val(e) - 1), OCNT.none)
+
+
+def inc(e):
+    """a count entry after taking one more reservation"""
+    return If(OCNT.is_some(e), OCNT.some(OCNT.val(e) + 1), OCNT.some(1))
+
+
+def reserved_along_the_path(c, cnt1, cnt0):
+    """functional specification of started_building_file on the counts: the directory of the file
+    gets one more reservation; a directory further up gets one exactly when the directory below
+    it on the path had none before"""
+    d0 = dirname(c.filename)
+    return Implies(d0 != c.filename, And(
+        cnt1[d0] == inc(cnt0[d0]),
+        ForAll([y_], Implies(And(anc(y_, d0), dirname(y_) != y_), And(
+            Implies(OCNT.is_none(cnt0[y_]), cnt1[dirname(y_)] == inc(cnt0[dirname(y_)])),
+            Implies(OCNT.is_some(cnt0[y_]), cnt1[dirname(y_)] == cnt0[dirname(y_)]))))))
+
+
 CONTRACTS = []
 CONTRACTS.append(Contract(
     M + 'started_building_file', props=['C04', 'C10', 'C12'],
     params={'self': BD, 'filename': STR, 'created_dirs': LIST(STR)}, returns=LIST(STR),
     ret_fresh=True,
-    ensures=lambda c: [
+    # protocol: the reserved directories are closed under taking ancestors (true while the counts
+    # are the numbers of reserved files below -- the cardinality statement left to the bounded
+    # stand-in build_dirs_machine; error_building_file cannot re-establish it without it)
+    requires=lambda c: bd_inv_pre(c) + [
+        ('assume-protocol.reserved-dirs-have-reserved-ancestors', ForAll([x, y_], Implies(
+            And(OCNT.is_some(c.old(CNT, c.self)[x]), anc(y_, x)),
+            OCNT.is_some(c.old(CNT, c.self)[y_]))))],
+    ensures=lambda c: bd_inv_post(c) + [
+        ('one-reservation-taken-along-the-path',
+         reserved_along_the_path(c, c.new(CNT, c.self), c.old(CNT, c.self)),
+         ['C04', 'C10', 'C12']),
+        ('only-own-ancestors-are-reserved', ForAll([x], Implies(
+            Not(anc(x, dirname(c.filename))),
+            And(c.new(CNT, c.self)[x] == c.old(CNT, c.self)[x],
+                c.new(CM, c.self)[x] == c.old(CM, c.self)[x]))), ['C04', 'C10']),
         ('locked-are-made-ancestors', ForAll([x], Implies(
             z3.Contains(c.res, z3.Unit(x)),
             And(z3.Contains(c.created_dirs, z3.Unit(x)), anc(x, dirname(c.filename)))))),
@@ -50,7 +117,23 @@ CONTRACTS.append(Contract(
             OCM.is_some(c.new(CM, c.self)[x])))),
         ('set-is-the-list', ForAll([x], c.v('created_dirs_set')[x]
                                    == z3.Contains(c.created_dirs, z3.Unit(x)))),
-    ])},
+        ('only-own-ancestors-are-reserved', ForAll([x], Implies(
+            Not(anc(x, dirname(c.filename))),
+            And(c.new(CNT, c.self)[x] == c.entry(CNT, c.self)[x],
+                c.new(CM, c.self)[x] == c.entry(CM, c.self)[x])))),
+        ('visited-ancestors-had-no-reservation', Implies(
+            dirname(c.filename) != c.filename,
+            ForAll([y_], Implies(And(anc(y_, dirname(c.filename)), anc(c.v('prev_parent'), y_)),
+                                 And(OCNT.is_none(c.entry(CNT, c.self)[y_]),
+                                     c.new(CNT, c.self)[y_] == OCNT.some(1)))))),
+        ('one-step-at-a-time', And(c.v('parent') == dirname(c.v('prev_parent')),
+                                   Or(c.v('prev_parent') == c.filename,
+                                      anc(c.v('prev_parent'), dirname(c.filename))))),
+        ('not-yet-visited-ancestors-untouched', Implies(
+            c.v('parent') != c.v('prev_parent'),
+            ForAll([x], Implies(anc(x, c.v('parent')),
+                                c.new(CNT, c.self)[x] == c.entry(CNT, c.self)[x])))),
+    ] + [('invariant.' + n, f) for n, f in bd_inv(c, 'new')])},
     lemmas=['ANC', 'PATHS'],
     notes='reserves the file and its unreserved ancestors; returns the ancestors out of '
           'created_dirs that this call registered as created.  The two reservation ghosts are '
@@ -60,15 +143,93 @@ CONTRACTS[-1].ghost_updates = lambda c: {
     'bd_res': c.gold('bd_res') + 1,
     'bd_resv': z3.Store(c.gold('bd_resv'), c.filename, True)}
 CONTRACTS[-1].lock_guards = {f: '_lock' for f in BD_FIELDS}
-CONTRACTS.append(Contract(
-    M + 'error_building_file', props=['C04', 'C10'], trusted=True,
+def released_along_the_path(c, cnt1, cnt0):
+    """functional specification of error_building_file on the counts: the directory of the file
+    loses one reservation; a directory further up loses one exactly when the directory below it on
+    the path lost its last one"""
+    d0 = dirname(c.filename)
+    return Implies(d0 != c.filename, And(
+        cnt1[d0] == dec(cnt0[d0]),
+        ForAll([y_], Implies(And(anc(y_, d0), dirname(y_) != y_), And(
+            Implies(OCNT.is_none(cnt1[y_]), cnt1[dirname(y_)] == dec(cnt0[dirname(y_)])),
+            Implies(OCNT.is_some(cnt1[y_]), cnt1[dirname(y_)] == cnt0[dirname(y_)]))))))
+
+
+def given_up(c, st0):
+    """a directory this build created whose last reservation is released is recorded as given up
+    (removed at the end of the build) and must be re-examined by the scan of the view"""
+    rd0 = getattr(c, st0)
+    return ForAll([x], Implies(
+        And(OCM.is_some(rd0(CM, c.self)[x]), OCNT.is_some(rd0(CNT, c.self)[x]),
+            OCNT.is_none(c.new(CNT, c.self)[x])),
+        And(c.new(ERR, c.self)[x], c.new('BuildDirs._maybe_removed_dirs', c.self)[x],
+            OCM.is_none(c.new(CM, c.self)[x]))))
+
+
+ERROR_BF = Contract(
+    M + 'error_building_file', props=['C04', 'C10'],
     params={'self': BD, 'filename': STR},
-    ensures=lambda c: [('one-reservation-less', c.gnew('bd_res') == c.gold('bd_res') - 1),
-                       ('this-path-released',
-                        c.gnew('bd_resv') == z3.Store(c.gold('bd_resv'), c.filename, False))],
+    # protocol: the file was reserved by started_building_file and not yet released, so every
+    # ancestor the walk visits has a count (that the counts are exactly the numbers of reserved
+    # files below is the cardinality statement left to the bounded stand-in build_dirs_machine)
+    requires=lambda c: bd_inv_pre(c) + [
+        ('assume-protocol.ancestors-are-reserved', ForAll([x], Implies(
+            anc(x, dirname(c.filename)), OCNT.is_some(c.old(CNT, c.self)[x]))))],
+    # never raises (raises=[]): giving a reservation back must not fail
+    ensures=lambda c: bd_inv_post(c) + [
+        ('given-up-dirs-were-created-by-this-build', ForAll([x], Implies(
+            And(c.new(ERR, c.self)[x], Not(c.old(ERR, c.self)[x])),
+            And(OCM.is_some(c.old(CM, c.self)[x]), anc(x, dirname(c.filename))))),
+         ['C10', 'C03', 'C04']),
+        ('only-own-ancestors-are-released', ForAll([x], Implies(
+            Not(anc(x, dirname(c.filename))),
+            And(c.new(CNT, c.self)[x] == c.old(CNT, c.self)[x],
+                c.new(CM, c.self)[x] == c.old(CM, c.self)[x]))), ['C04', 'C10']),
+        ('one-reservation-released-along-the-path',
+         released_along_the_path(c, c.new(CNT, c.self), c.old(CNT, c.self)), ['C04', 'C10']),
+        # C10: "the parent directories this call created are removed when empty - at once in the
+        # virtual view and on disk by the end of the build"
+        ('created-dirs-without-reservation-are-given-up', given_up(c, 'old'), ['C04', 'C10']),
+        ('a-dir-that-stays-created-keeps-its-name', ForAll([x], Implies(
+            OCM.is_some(c.new(CM, c.self)[x]),
+            c.new(CM, c.self)[x] == c.old(CM, c.self)[x])), ['C12', 'C10'])],
     modifies=mods,
-    notes='releases the reservation of a file reserved by started_building_file; never raises '
-          'under that protocol'))
+    local_types={'count': INT},
+    loops={0: LoopSpec(inv=lambda c: [
+        ('walking-up-from-the-file', anc(c.v('parent'), dirname(c.filename))),
+        ('given-up-dirs-were-created-by-this-build', ForAll([x], Implies(
+            And(c.new(ERR, c.self)[x], Not(c.entry(ERR, c.self)[x])),
+            And(OCM.is_some(c.entry(CM, c.self)[x]), anc(x, dirname(c.filename)))))),
+        ('only-own-ancestors-are-released', ForAll([x], Implies(
+            Not(anc(x, dirname(c.filename))),
+            And(c.new(CNT, c.self)[x] == c.entry(CNT, c.self)[x],
+                c.new(CM, c.self)[x] == c.entry(CM, c.self)[x])))),
+        ('a-dir-that-stays-created-keeps-its-name', ForAll([x], Implies(
+            OCM.is_some(c.new(CM, c.self)[x]),
+            c.new(CM, c.self)[x] == c.entry(CM, c.self)[x]))),
+        ('created-dirs-without-reservation-are-given-up', given_up(c, 'entry')),
+        ('visited-ancestors-lost-their-last-reservation', Implies(
+            dirname(c.filename) != c.filename,
+            ForAll([y_], Implies(And(anc(y_, dirname(c.filename)), anc(c.v('prev_parent'), y_)),
+                                 And(OCNT.is_none(c.new(CNT, c.self)[y_]),
+                                     OCNT.is_none(dec(c.entry(CNT, c.self)[y_]))))))),
+        ('one-step-at-a-time', And(c.v('parent') == dirname(c.v('prev_parent')),
+                                   Or(c.v('prev_parent') == c.filename,
+                                      anc(c.v('prev_parent'), dirname(c.filename))))),
+        ('not-yet-visited-ancestors-untouched', Implies(
+            c.v('parent') != c.v('prev_parent'),
+            ForAll([x], Implies(anc(x, c.v('parent')),
+                                And(c.new(CNT, c.self)[x] == c.entry(CNT, c.self)[x],
+                                    c.new(CM, c.self)[x] == c.entry(CM, c.self)[x]))))),
+    ] + [('invariant.' + n, f) for n, f in bd_inv(c, 'new')])},
+    lemmas=['ANC', 'PATHS'],
+    notes='releases the reservation of a file reserved by started_building_file; the two '
+          'reservation ghosts are marker updates (definitions)')
+ERROR_BF.ghost_updates = lambda c: {
+    'bd_res': c.gold('bd_res') - 1,
+    'bd_resv': z3.Store(c.gold('bd_resv'), c.filename, False)}
+ERROR_BF.lock_guards = {f: '_lock' for f in BD_FIELDS}
+CONTRACTS.append(ERROR_BF)
 CONTRACTS.append(Contract(
     M + 'created_dirs', props=['C12', 'C02', 'C03'], params={'self': BD}, returns=LIST(STR),
     ret_fresh=True,
